@@ -40,6 +40,17 @@ type Result struct {
 	Violation  *Finding
 	NonTrivial bool
 	Classes    []string
+	Known      []string // keys of listed known findings that this case ran into without stopping the oracle (see KnownOr)
+}
+
+// KnownOr is used by oracles that can continue past a known finding: if key is a listed known finding it is noted in
+// the result and nil is returned (the oracle goes on); otherwise a Finding is returned, to be reported as a violation.
+func (r *Result) KnownOr(key, format string, args ...any) *Finding {
+	if IsKnown(key) {
+		r.Known = append(r.Known, key)
+		return nil
+	}
+	return Fail(key, format, args...)
 }
 
 // Fail is a helper to build a violating Result.
@@ -470,6 +481,13 @@ func Run[C any](t *testing.T, s Spec[C]) {
 			_ = os.Remove(journalPath)
 		}
 		st.record(cj, res)
+		if len(res.Known) > 0 {
+			st.mu.Lock()
+			for _, k := range res.Known {
+				st.KnownHits[k]++
+			}
+			st.mu.Unlock()
+		}
 		if res.Violation != nil {
 			if IsKnown(res.Violation.Key) {
 				st.mu.Lock()
